@@ -8,14 +8,18 @@ from .graph import Mismatch
 
 INV_C04 = ["WindowsValid", "MaskOnlyWritten", "LenExact"]
 INV_C08 = ["MaxDominates", "NewGetMax", "Proportional", "NeverMasked"]
+PROPS_C08 = ["ResetExact"]
 
 
 class SubtrajAdapter:
-    def __init__(self, n, h, prio, mt=False):
+    def __init__(self, n, h, prio, mt=False, unit=1):
         from rl_blox.blox import replay_buffer as rb
 
         self.prio = prio
         self.h = h
+        # unit: Subtraj!PrioDefault of the configuration - a model priority p is the real priority p / unit, the initial
+        # max_priority 1.0 is `unit` in the model (unit 2: model values 1, 2, 3 = 0.5, 1.0, 1.5 in the code)
+        self.unit = unit
         cls = rb.SubtrajectoryReplayBufferPER if prio else rb.SubtrajectoryReplayBuffer
         base = cls(n, horizon=h)
         if prio:  # np.empty leaves arbitrary content in never-initialised priority slots
@@ -129,15 +133,36 @@ def step(ad: SubtrajAdapter, op, args, exp, pre, post):
         for j in range(len(ticks)):
             _check_window(batch, j, exp["rows"][j], h, inter)
     elif op == "UpdatePriority":
-        buf.update_priority(np.asarray(args[0], dtype=float))
+        buf.update_priority(np.asarray(args[0], dtype=float) / ad.unit)
     elif op == "ResetMax":
         buf.reset_max_priority()
+        if post is not None:  # the model's post-state: the true maximum of the filled region, whichever side of 1.0
+            mp, want = float(buf.priority.max_priority) * ad.unit, post["maxPrio"]
+            if mp != want:
+                stored = [float(x) for x in buf.priority.priority[: len(buf)]]
+                raise Mismatch(f"tracked maximum after reset is {mp / ad.unit}, true maximum of the stored priorities {stored} is {want / ad.unit}",
+                               code="tracked_max_is_not_true_max", want=post)
     else:  # pragma: no cover
         raise AssertionError(op)
 
 
 def project(ad: SubtrajAdapter):
-    return bufkit.project_subtraj(ad.buf, ad.prio)
+    unit = getattr(ad, "unit", 1)
+    if not ad.prio or unit == 1:
+        return bufkit.project_subtraj(ad.buf, ad.prio)
+    # priorities in model units (bufkit.project_subtraj accepts whole numbers only)
+    buf = ad.buf
+    v = bufkit.project_subtraj(buf, False)
+    pr = []
+    for i in range(buf.buffer_size):
+        x = float(buf.priority.priority[i]) * unit if i < buf.current_len else 0.0
+        if x != int(x):
+            raise Mismatch(f"priority {x / unit} of slot {i} is not one of the supplied values")
+        pr.append(int(x))
+    mp = float(buf.priority.max_priority) * unit
+    v["prio"], v["maxPrio"] = pr, (int(mp) if mp == int(mp) else mp)
+    v["sampled"] = [int(x) for x in np.asarray(buf.priority.sampled_indices).reshape(-1)]
+    return v
 
 
 def real_rng_windows(ad, model_state, seed, b=16, live=False):
@@ -188,7 +213,7 @@ def merge(rep, out):
     return (out["edges"], out["nontrivial"]) if out["edges"] else None
 
 
-def config_job(n, h, m, prio, prio_vals, max_batch, invs, label, real_rng, seed, workers=4, mt=False):
+def config_job(n, h, m, prio, prio_vals, max_batch, invs, label, real_rng, seed, workers=4, mt=False, unit=1, props=()):
     """One Subtraj configuration: TLC property run, generation run, transition-coverage replay."""
     out = {"tlc": [], "violations": [], "edges": 0, "nontrivial": 0, "sample": None}
 
@@ -201,15 +226,17 @@ def config_job(n, h, m, prio, prio_vals, max_batch, invs, label, real_rng, seed,
     rep.violation = lambda key, what, replay=None: out["violations"].append((key, what, replay))
     rep.sample = lambda s: out.__setitem__("sample", s)
     rep.traces = 0
-    res = _run_config(rep, n, h, m, prio, prio_vals, max_batch, invs, label, real_rng, workers, mt)
+    res = _run_config(rep, n, h, m, prio, prio_vals, max_batch, invs, label, real_rng, workers, mt, unit, props)
     if res:
         out["edges"], out["nontrivial"] = res
     return out
 
 
-def _run_config(rep, n, h, m, prio, prio_vals=(1,), max_batch=1, invs=(), label="", real_rng=True, workers=16, mt=False):
+def _run_config(rep, n, h, m, prio, prio_vals=(1,), max_batch=1, invs=(), label="", real_rng=True, workers=16, mt=False, unit=1, props=()):
     c = dict(N=n, H=h, MaxAdds=m, PRIO=prio, PrioVals=set(prio_vals), MaxBatch=max_batch, EMIT=False)
-    r = tlc.run("Subtraj", tlc.cfg_text(constants=c, invariants=list(invs), properties=["EnvTermSticky"]), coverage=True, tag=f"st{n}{h}", workers=workers)
+    if unit != 1:  # definition override: the initial tracked maximum is `unit` model units (C08: priorities below 1.0)
+        c["PrioDefault"] = tlc.Subst(f"PrioDefault{unit}")
+    r = tlc.run("Subtraj", tlc.cfg_text(constants=c, invariants=list(invs), properties=["EnvTermSticky"] + list(props)), coverage=True, tag=f"st{n}{h}", workers=workers)
     rep.add_tlc(r, f"Subtraj N={n} H={h} adds<={m} prio={prio} {label}")
     if not r.ok:
         rep.violation(f"spec:Subtraj:{r.violated}", f"design-level violation of {r.violated} (N={n},H={h})", r.error_trace)
@@ -225,7 +252,7 @@ def _run_config(rep, n, h, m, prio, prio_vals=(1,), max_batch=1, invs=(), label=
         if real_rng and op == "Add" and post is not None:
             real_rng_windows(o, post, rep.seed)
 
-    res = graph.cover(G, root, lambda: SubtrajAdapter(n, h, prio, mt), stp, project)
+    res = graph.cover(G, root, lambda: SubtrajAdapter(n, h, prio, mt, unit), stp, project)
     rep.traces += res["edges_tested"]
 
     # histories on one live object: observers (sampling) interleaved with additions (graph.walks)
@@ -234,7 +261,7 @@ def _run_config(rep, n, h, m, prio, prio_vals=(1,), max_batch=1, invs=(), label=
         if real_rng and not prio and op == "Add" and post is not None:
             real_rng_windows(o, post, rep.seed, live=True)
 
-    wres = graph.walks(G, root, lambda: SubtrajAdapter(n, h, prio, mt), wstp, project, n=24, max_len=3 * m, seed=rep.seed)
+    wres = graph.walks(G, root, lambda: SubtrajAdapter(n, h, prio, mt, unit), wstp, project, n=24, max_len=3 * m, seed=rep.seed)
     rep.traces += wres["walks"]
     res["violations"] += wres["violations"]
     cls = ("SubtrajectoryReplayBufferPER" if prio else "SubtrajectoryReplayBuffer") + ("[task 0 of MultiTaskReplayBuffer]" if mt else "")
@@ -242,7 +269,7 @@ def _run_config(rep, n, h, m, prio, prio_vals=(1,), max_batch=1, invs=(), label=
         rep.violation(
             f"{cls}:{v['path'][-1]['op']}:{v['code']}",
             f"{cls} (N={n}, H={h}): {v['what']}",
-            {"class": cls, "N": n, "H": h, "prio": prio, "mt": mt, "path": v["path"], "detail": v["detail"]},
+            {"class": cls, "N": n, "H": h, "prio": prio, "mt": mt, "unit": unit, "path": v["path"], "detail": v["detail"]},
         )
     nontrivial = sum(1 for k, es in G.out.items() for e in es if G.state[k]["len"] > 0)
     rep.sample({"N": n, "H": h, "transition": g.emitted[len(g.emitted) // 2]})
@@ -264,12 +291,16 @@ def replay(path, pid):
     import json
 
     d = json.load(open(path))["replay"]
-    ad = SubtrajAdapter(d["N"], d["H"], d["prio"], d.get("mt", False))
+    ad = SubtrajAdapter(d["N"], d["H"], d["prio"], d.get("mt", False), d.get("unit", 1))
     try:
         for st in d["path"]:
             step(ad, st["op"], st["args"], st.get("exp"), None, None)
             print(st["op"], st["args"])
-        print(project(ad))
+        got = project(ad)
+        print(got)
+        want = (d.get("detail") or {}).get("want")  # the model's state after the last step, where the violation recorded it
+        if want is not None and graph.canon(got) != graph.canon(want):
+            raise Mismatch(f"state after the last step differs from the model's {want}")
     except Mismatch as m:
         print(f"VIOLATION property={pid} replay={path}")
         print("  ", m.what)
